@@ -358,10 +358,30 @@ def gen_param_case(rng, features=(), ninputs=6):
     return prog, g.inputs(prog, ninputs, fixed)
 
 
+def gen_consts_case(rng, features, ninputs=3):
+    """C39 anchor declare_fixed_value_scalars_as_constants: general kernels (lib_fm.Gen); locals that are assigned
+    exactly one literal become PARAMETERs.  No input is 'non-matching' (fixed = [])."""
+    g = F.Gen(rng, features)
+    prog = g.program(nstmts=rng.randint(4, 8), depth=2)
+    prog['param'] = {'dic2p': {}, 'fixed': [], 'rbv': False, 'callback': False, 'entry': 'consts'}
+    return prog, g.inputs(prog, ninputs)
+
+
+def transform_consts(text, prog, workdir):
+    from loki import Sourcefile
+    from loki.transformations.parametrise import declare_fixed_value_scalars_as_constants
+    src = Sourcefile.from_source(text)
+    for routine in src.all_subroutines:
+        declare_fixed_value_scalars_as_constants(routine)
+    return [('kmod.f90', src.to_fortran())]
+
+
 def transform_param(text, prog, workdir):
     from loki.ir import nodes as ir
     from loki.transformations.parametrise import ParametriseTransformation
     p = prog['param']
+    if p['entry'] == 'consts':
+        return transform_consts(text, prog, workdir)
 
     def error_stop(**kw):
         return (ir.GenericStmt(text=f'error stop "{kw["msg"]}"'),)
@@ -393,6 +413,9 @@ def param_tags(prog):
     mixed = call sites of one callee pass them at different positions; rbv = replace_by_value."""
     p = prog['param']
     units = {u['name']: u for u in prog['units']}
+    if p['entry'] == 'consts':
+        kinds = {s['s'] for u in prog['units'] for s in walk_stmts(u['body'])}
+        return 'consts' + ('+assoc' if 'assoc' in kinds else '')
     par = {('lev1' if p['entry'] == 'lev1' else 'kernel'): set(p['dic2p'])}
     tags, sitepos = set(), {}
     for uname in ('kernel', 'lev1', 'lev2'):
@@ -459,7 +482,7 @@ def build_exe(workdir, tag, sources, check=False):
     return d, 'ok', ''
 
 
-def run_exe(d, sel, timeout=120):
+def run_exe(d, sel, timeout=300):
     """-> (status, stdout, stderr): 'ok' | 'abort' (stopped through the generated guard) | 'runtime-error' | 'timeout'"""
     try:
         r = subprocess.run(['./a.out', str(sel)], cwd=d, capture_output=True, text=True, timeout=timeout)
